@@ -5,7 +5,7 @@ import json, os, re
 root = "/verif/seeded"
 summ = json.load(open(os.path.join(root, "SUMMARY.json")))
 matrix = json.load(open(os.path.join(root, "MATRIX.json"))) if os.path.exists(os.path.join(root, "MATRIX.json")) else {}
-names = sorted(d for d in os.listdir(root) if os.path.isdir(os.path.join(root, d)))
+names = sorted(d for d in os.listdir(root) if os.path.exists(os.path.join(root, d, "meta.json")))
 lines = ["| Seed | File | Change | Caught by (quick), first signature | First run |", "|---|---|---|---|---|"]
 missed = []
 for n in names:
@@ -23,6 +23,13 @@ for n in names:
         sig = sig[:72] + "…"
     files = sorted({l[6:].strip() for l in open(os.path.join(root, n, "patch.diff")) if l.startswith("+++ b/")})
     first = "missed, then caught" if "history" in m else "caught"
+    if "obsolete" in m:
+        first += "; obsolete since 5e5dc73"
+        if sig == "MISSED":
+            sig = "(" + ((m["checks"].get(pid, {}).get("first_signatures") or ["caught before the fix"])[0][:60]) + ")"
+            mm2 = re.search(r"(C\d\d\|[^\s:]+)", sig)
+            if mm2:
+                sig = mm2.group(1)
     if "history" in m:
         missed.append((n, m["history"]))
     lines.append("| %s | `%s` | %s | `%s` | %s |" % (n, ", ".join(files), summ.get(n, ""), sig.replace("|", "\\|"), first))
